@@ -310,7 +310,7 @@ def shard(ctx: Ctx, fmt: str):
     part = Partial()
     if fmt in SHEET_FORMATS:
         n = ctx.n(300, 5000)
-        optst = st.fixed_dictionaries({"inline_strings": st.booleans(), "permute_parts": st.booleans()}) if fmt == "xlsx" else (st.fixed_dictionaries({"rle": st.booleans(), "comments": st.booleans()}) if fmt == "ods" else st.just({}))
+        optst = st.fixed_dictionaries({"inline_strings": st.booleans(), "permute_parts": st.booleans()}) if fmt == "xlsx" else (st.fixed_dictionaries({"rle": st.booleans(), "comments": st.booleans(), "row_groups": st.booleans()}) if fmt == "ods" else st.just({}))
 
         def dupify(t):
             """copy some cells onto their right / lower neighbour: real sheets are full of equal neighbouring values"""
